@@ -205,11 +205,17 @@ type Target struct {
 	Idx     int
 	Partial bool
 	L       *Log
+	Inst    string // instance name (default vc03t<Idx>): a second family of targets with a log of its own
 }
 
 func (t *Target) Init(*config.Map) error { return nil }
 func (t *Target) Name() string           { return "vc03_target" }
-func (t *Target) InstanceName() string   { return fmt.Sprintf("vc03t%d", t.Idx) }
+func (t *Target) InstanceName() string {
+	if t.Inst != "" {
+		return t.Inst
+	}
+	return fmt.Sprintf("vc03t%d", t.Idx)
+}
 
 type delivery struct {
 	t *Target
